@@ -12,7 +12,7 @@ CLAIMED = {
    tech="AST->z3 VC generation, Hoare loop invariants, generator contracts (deductive)"),
  "C11": dict(cat="proof", ref="DESIGN.md 4/C11",
    text="Reader.open (flat + compressed branch), ns, rl, shape and OnlineReader.ns executed symbolically for every file size, channel count, item size, rate and announced duration: "
-        "memmap fits (no raise), ns == floor(bytes/frame), values are the file prefix, duration matches; the cached size of an online reader may be stale; compressed branch for both settings of ignore_warnings and any rate in the .ch header; a recording still being acquired (metadata without size / duration fields) opens (arguments of the dropped logging calls are evaluated: F-C11-2 found this way and repaired).",
+        "memmap fits (no raise), ns == floor(bytes/frame), values are the file prefix, duration matches; the cached size of an online reader may be stale; both branches for both settings of ignore_warnings and any rate in the .ch header; a recording still being acquired (metadata without size / duration fields) opens (arguments of the dropped logging calls are evaluated: F-C11-2 found this way and repaired).",
    note="A-FS (np.memmap semantics), A-REAL (the binary64 round trip ns->fileTimeSecs->ns is only checked natively, bounded), A-MTSCOMP for the stream length.",
    tech="AST->z3 VC generation with a ghost file system (deductive)"),
  "C10": dict(cat="proof", ref="DESIGN.md 4/C10",
@@ -23,27 +23,27 @@ CLAIMED = {
    tech="AST->z3 VC generation, index-function arrays, where() specification axioms (deductive)"),
  "C01": dict(cat="other", ref="DESIGN.md 4/C01",
    text="Reader.__getitem__/read/read_samples proved equal to NumPy indexing of the whole calibrated, geometry-ordered array for every selector shape (int, any slice incl. negative steps and out-of-range bounds, "
-        "integer arrays) x every file size; raw_channel_order construction in __init__ against geometry_from_meta's contract; sync unscaled; file untouched. The contracts it rests on are re-checked by this check: C09's per-channel volts-per-bit vector (imec and nidq, every MN/MA/XA/DW composition) and C08's geometry order. Level other: cbin path and dtype of 0-d results rest on the bounded native stand-in over all shipped metas.",
+        "integer arrays) x every file size; raw_channel_order construction in __init__ against geometry_from_meta's contract; sync unscaled; file untouched. The contracts it rests on are re-checked by this check: C09's per-channel volts-per-bit vector (imec and nidq, every MN/MA/XA/DW composition), C08's geometry order and C11's contracts of Reader.open (the rows indexed are the complete frames of the file, whatever the metadata announce and whatever the warning option). Level other: cbin path and dtype of 0-d results rest on the bounded native stand-in over all shipped metas.",
    note="A-NP-INDEX, A-REAL (which sample meets which gain; not float32 rounding), A-MTSCOMP. array x array selectors are outside the claim (outer vs point-wise not fixed by the statement). F-C01-1 (bare list index) was repaired.",
    tech="AST->z3 VC generation with abstract selector index functions (deductive) + bounded native stand-in"),
  "C09": dict(cat="other", ref="DESIGN.md 4/C09",
    text="Derived quantities proved for every probe generation/stream with symbolic numeric fields and an abstract IMRO table of symbolic length: s2v*gain*maxint == range, 1 on sync, length == nSavedChans; nidq segments; type/fs/counts/sync indices. "
-        "The textual read->write->read round trip is a bounded stand-in over a grammar-generated corpus + shipped files (string theories do not decide float()/repr()).",
+        "write_meta_data writes an integer list as the plain decimal digits of its entries separated by commas, for every value (structured strings); the rest of the textual read->write->read round trip is a bounded stand-in over a grammar-generated corpus + shipped files (string theories do not decide float()/repr()).",
    note="A-STR-FREE/A-SGLX (regex on imroTbl yields entries; split fields are the numbers). F-C09-1 (scalars < 1e-4) was repaired.",
    tech="AST->z3 VC generation over a symbolic metadata record (deductive) + bounded round-trip stand-in"),
  "C08": dict(cat="other", ref="DESIGN.md 4/C08",
    text="geometry_from_meta proved for site tables of any length in both encodings: the sort is a bijection moving every key together, ordered by (shank,row,-col); rc<->xy inverse on the three grids; the two encodings agree; split shank == restriction of the parent. "
-        "ADC tables and canonical layouts: exhaustive native enumeration of the finite configuration space.",
+        "ADC tables and canonical layouts: exhaustive native enumeration of the finite configuration space (every version x shank count against a per-channel description).",
    note="A-NP-SPEC (lexsort, where), A-SGLX, map-string parsing summarised by contract. Known finding F-C08-1 (ADC delays for non-prefix channel subsets). History effects (caching across calls) only in the bounded stand-in (derives twice).",
    tech="AST->z3 VC generation with permutation/where specification axioms (deductive) + exhaustive enumeration of tables"),
  "C16": dict(cat="other", ref="DESIGN.md 4/C16",
    text="saturation() proved for any (nc, ns), scalar or per-channel range, proportion, slew limit, rate and taper width: which mask is averaged over which axis, OR-combination with '>' thresholds, trailing zero of the slew term, "
-        "mute in [0,1], 0 on flagged samples (odd widths), 1 beyond the half-width, mute computed from the flags only, input untouched; C09's range_volts contract re-checked.",
+        "mute == max(0, 1 - flags * window) and 0 on the flags as a real number: in [0,1], 1 beyond the half-width, computed from the flags only, input untouched; C09's range_volts contract re-checked (with and without saved sync channels).",
    note="np.mean of a boolean column = fraction of channels (A-NP-SPEC), convolve('same') with a non negative kernel and cosine(M) centre tap (A-SCIPY) are assumed contracts exercised natively by the bounded stand-in; A-REAL (float32 traces against double ranges at the 98 % boundary are decided in exact rationals by the bounded stand-in, as are slew events at block boundaries of long arrays). F-C16-1 (even widths) was repaired.",
    tech="AST->z3 VC generation with reduction/convolution specification axioms (deductive) + bounded native stand-in"),
  "C03": dict(cat="other", ref="DESIGN.md 4/C03",
    text="One symbolic iteration of the real window loop of _process_NP24 (read -> _ind2save -> _split2shanks): the block appended to each shank's AP file is exactly the original int16 samples [a_j,b_j) of that shank's columns + sync, "
-        "for every window index/size, recording length, processed length (init_params(nsamples) <= file length) and shank map; ranges tile [0,ns) (lemma over C17's contract); value exactness under the binary32 rounding model for every volts-per-bit factor; reconstruction loop body scatters every column back.",
+        "for every window index/size, recording length, processed length (init_params(nsamples) <= file length) and shank map; ranges tile [0,ns) (lemma over C17's contract); value exactness under the binary32 rounding model for every volts-per-bit factor; reconstruction loop body scatters every column back; init_params: by default the whole recording, and the window / overlap / taper / ratio the window harnesses assume (a window that is not a multiple of 12 is refused); integer lists of the metadata written back as plain digits (C09 contract re-checked).",
    note="Channel lists (where(shank==s)+sync, partition) are a precondition; metadata, channel-subset strings and end-to-end bytes (all 65536 values x catalogued gains, non-contiguous / interleaved shank maps, nsamples < file length, channel-subset strings through a metadata file) are a bounded stand-in on real files. Re-checks C17's generator contract. A-FPSTD for the value obligation.",
    tech="AST->z3 VC generation, generator contract reuse, standard floating-point error model (deductive) + bounded end-to-end"),
  "C12": dict(cat="other", ref="DESIGN.md 4/C12",
@@ -53,22 +53,22 @@ CLAIMED = {
    tech="AST->z3 VC generation with an opaque-filter summary (deductive) + bounded numeric stand-in"),
  "C06": dict(cat="other", ref="DESIGN.md 4/C06",
    text="One symbolic batch of the real per-worker loop (nested my_function located by name, free variables symbolic): file position before each write, rows == kept range with the documented taper margins, sync columns bit-identical, "
-        "saturation slice, RMS/timestamp positions, loop invariant position == f(batch index), padding; the worker's start batch and boundary formulas; lemmas: batches tile [0,ns), consecutive workers leave no gap, writes are position-determined.",
+        "saturation slice (flags computed on the calibrated samples as read, before tapering), RMS/timestamp positions, loop invariant position == f(batch index), padding; the worker's start batch and boundary formulas; lemmas: batches tile [0,ns), consecutive workers leave no gap, writes are position-determined.",
    note="All filtering is opaque (shapes only); saturation() through C16's contract; joblib schedules are not modelled (position-determinism is what is proved); byte identity across worker counts (incl. more workers than batches) / QC lengths via the bounded stand-in with a NumPy/SciPy shim for pyfftw. F-C06-1 (phantom batch) was repaired: a worker whose first batch is not real returns at once, proved to touch nothing and to lose nothing.",
    tech="AST->z3 VC generation on a nested closure with ghost file positions + arithmetic lemmas (deductive) + bounded native stand-in"),
  "C02": dict(cat="other", ref="DESIGN.md 4/C02",
    text="Ghost-file-system contracts: companion resolution for data / compressed / metadata paths under every combination of existing files; compress_file, decompress_file, decompress_to_scratch with a normal and an exceptional outcome of mtscomp: "
-        "final names only ever carry complete files (also after an earlier failed attempt), sources removed only after their replacement is complete, lossless by D(C(b))=b; same shape through .bin and .cbin rests on C11's contracts of both branches of Reader.open (re-checked here).",
+        "final names only ever carry complete files (also after an earlier failed attempt), sources removed only after their replacement is complete, a failed re-compression does not remove the header of a pair published earlier, lossless by D(C(b))=b; same shape through .bin and .cbin rests on C11's contracts of both branches of Reader.open (re-checked here).",
    note="mtscomp is external: assumed contract (A-MTSCOMP) validated natively: reader on .bin vs .cbin around chunk boundaries, byte round trip, failures injected at each chunk, fail-then-retry histories, UUID-named companions with both bands of a probe in one folder (bounded). Known finding F-C02-1 (negative steps on .cbin).",
    tech="AST->z3 VC generation over a ghost file system with exceptional post-conditions (deductive) + bounded native stand-in"),
  "C04": dict(cat="other", ref="DESIGN.md 4/C04",
    text="Contracts of every step of NP2Converter.process over the ghost file system: _prepare_files_NP24 (no-op on repeat, outputs never alias the input, channel lists = where(shank==s)+sync), check_NP24 (every window compared, flag only after the loop; the whole function through the interpreter: every exceptional way out leaves check_completed unset), _prepare_files_NP21 (forced / first run starts the LF output empty), "
-        "epilogue order (original unlinked only after check_NP24 returned normally with both flags), delete_NP24 guard, compress_NP24/NP21 through C02's compress_file incl. failures, early exits, init_params reset.",
+        "epilogue order (original unlinked only after check_NP24 returned normally with both flags), delete_NP24 guard, compress_NP24/NP21 through C02's compress_file incl. failures, early exits (an already split input is refused before any output is prepared, with or without overwrite), init_params reset; rests on C03's init_params contract (every sample is split and verified before the original goes).",
    note="Histories are handled inductively (one guarded unlink of the original); interruptions = exceptions of external calls; real run histories on files (first/repeat/overwrite/corrupted split/failed verification then delete_NP24()/NP2.1/NP1) are a bounded stand-in. F-C04-1 (retry after partial folder creation) was repaired.",
    tech="AST->z3 VC generation over a ghost file system, effect-log ordering obligations (deductive) + bounded histories"),
  "C13": dict(cat="other", ref="DESIGN.md 4/C13",
    text="extract_wfs_array proved with a loop invariant over the output stack for any number of spikes / channels / samples: wfs[i,c,t] == traces[neighbours[peak_i,c], sample_i - trough + t], padding neighbours read the NaN row, every read in bounds; "
-        "write_wfs_chunk: chunk-local offsets for chunk 0 and later chunks address samples [sample-trough, sample-trough+length) of the recording and rows land at waveform_index, with the caller's trough offset and length; _make_wfs_table (loop iteration + tail, signed and unsigned spike times): each unit gets min(max_wf, #valid) distinct valid spikes, table rows are in bijection with the selected spikes in ascending order, waveform_index is a bijection grouped by unit; make_channel_index: row c = ascending channels within the radius, padded; extract_wfs_cbin: chunks cover every valid spike once, each job gets its own chunk, rows and the caller's window parameters.",
+        "write_wfs_chunk: chunk-local offsets for chunk 0 and later chunks address samples [sample-trough, sample-trough+length) of the recording and rows land at waveform_index, with the caller's trough offset and length; _make_wfs_table (loop iteration + tail, signed and unsigned spike times): each unit gets min(max_wf, #valid) distinct valid spikes, table rows are in bijection with the selected spikes in ascending order, waveform_index is a bijection grouped by unit; make_channel_index: row c = ascending channels within the radius, padded; extract_wfs_cbin: the table is requested with the caller's spikes, count, seed and window offset / length; chunks cover every valid spike once, each job gets its own chunk, rows and the caller's window parameters; the per-unit running index counts 0, 1, 2, ... within each unit (cumulative-sum induction; pandas groupby under an assumed contract).",
    note="Agreement of table / traces / channels / templates after the final re-sort, chunk- and worker-count independence end to end and the loader are a bounded stand-in on generated recordings (joblib threading back end). A-PANDAS; NaN is a token; A-NP-SPEC for sort / argsort(stable) / unique / Generator.choice(replace=False) / flatten; squareform(pdist) = symmetric matrix (A-SCIPY). F-C13-1 (spike index 0 dropped) was repaired.",
    tech="AST->z3 VC generation with a stack loop invariant and index-function arrays (deductive) + bounded native stand-in"),
  "C14": dict(cat="other", ref="DESIGN.md 4/C14",
@@ -78,27 +78,27 @@ CLAIMED = {
    tech="AST->z3 VC generation with order-statistics specification axioms (deductive) + bounded native stand-in"),
  "C18": dict(cat="other", ref="DESIGN.md 4/C18",
    text="fourier.convolve: inverse transform asked for the padded length, 'same' = centred crop for both parities, 'full' length; ns_optim_fft: look-up proved over an abstract strictly increasing table, the table's entries and completeness enumerated; freduce/fexpand mutually inverse on Hermitian spectra for both parities and any axis; "
-        "fscale == DFT bin frequencies; lp + hp == 1, bp == hp*lp on the filter vectors; cosine taper monotone in [0,1]; filter broadcast along the requested axis.",
+        "fscale == DFT bin frequencies; lp + hp == 1, bp == hp*lp on the filter vectors; cosine taper monotone in [0,1]; filters keep the shape and every output sample comes from the transforms of the input line through the same position along the requested axis (stated on the data flow, not on which axis the implementation transforms along).",
    note="A-FFT (shapes, linearity; contents opaque), A-MATH (three facts about cos). Equality with direct convolution / FFT on the impulse basis is a bounded stand-in. F-C18-1 (ns_optim_fft above its table) and F-C18-3 (3-D, axis 0) were repaired.",
    tech="AST->z3 VC generation with FFT shape/Hermitian specification axioms (deductive) + bounded impulse-basis stand-in"),
  "C05": dict(cat="other", ref="DESIGN.md 4/C05",
    text="car: exactly one channel-axis reduction with the requested operator is subtracted, per-collection == per-group; kfilt/fk recursion over collections forwards every setting; kfilt body: gain control only when a window is given, mirrored padding, padding rows dropped and gain multiplied back; destripe data-flow: high-pass -> fshift by +sample_shift along time -> interpolation -> "
-        "spatial filter on rows with label != 3, sync untouched; agc: out*gain == in wherever the returned gain is not zero, data untouched where it is zero, gain >= 0 (stated on the returned values only).",
+        "spatial filter on rows with label != 3, sync untouched; destripe called twice with the same settings dictionaries: the spatial step and the high-pass get exactly the caller's settings both times and the dictionaries are left as given; agc: out*gain == in wherever the returned gain is not zero, data untouched where it is zero, gain >= 0 (stated on the returned values only).",
    note="median/mean are opaque reductions with translation equivariance (A-NP-SPEC); butter/sosfiltfilt/fshift/convolve opaque with shapes (A-SCIPY/A-FFT). 40 dB stripe attenuation / 90 % spike retention are numeric: bounded stand-in on synthetic stripes.",
    tech="AST->z3 VC generation with call-log data-flow obligations and modular recursion contracts (deductive) + bounded numeric stand-in"),
  "C07": dict(cat="other", ref="DESIGN.md 4/C07",
    text="fshift structure for 1-D / 2-D inputs along either axis with scalar and per-trace shifts: output shape and dtype, real input untouched, unit-delay ramp along the shift axis, inverse transform to the original length along the same axis, per-trace shifts vary along the other axis only; "
-        "wave_shift_corrmax measures the shift from the zero lag n // 2 for every parity and moves the copy back by exactly the estimate; parabolic_max's interpolated peak is the same for x and a*x (a > 0) and within one sample of the maximum.",
+        "wave_shift_corrmax measures the shift from the zero lag n // 2 for every parity and moves the copy back by exactly the estimate; parabolic_max (whole function, 1-D): a maximum on samples 1 .. ns-2 is interpolated to the vertex of the parabola through its neighbours, a maximum on the first / last sample returned as it is; the interpolated peak is the same for x and a*x (a > 0) and within one sample of the maximum.",
    note="The shift theorem cannot be proved over an opaque transform: integer shift == roll, composition, band-limited fractional delay, call-history independence and delay estimation (wave_shift_corrmax, parabolic_max) are a bounded stand-in on the full impulse basis (linearity lifts it to all signals of a length).",
    tech="AST->z3 VC generation with an FFT call log (deductive, structure) + bounded impulse-basis stand-in (numerics)"),
  "C20": dict(cat="other", ref="DESIGN.md 4/C20",
-   text="rolling_window and smooth.lp keep the input length for every length / window / padding (Python's half-to-even round modelled); Venn peeling lemma: per bin, sorter j is counted in exactly c_j levels, so every spike is attributed once; "
+   text="rolling_window (odd and even window lengths) and smooth.lp keep the input length for every length / window / padding (Python's half-to-even round modelled; lp rests on C18's filter contracts, re-checked); traj_matrix_indices addresses existing traces only, each on one anti-diagonal, for every n; Venn peeling lemma: per bin, sorter j is counted in exactly c_j levels, so every spike is attributed once; "
         "stack: row k aggregates exactly the traces carrying the k-th distinct label, with all their samples, only row k is written (one symbolic iteration, np.unique by specification); svd_denoise_npx: each collection is decomposed on its own rows at a rank >= its size whenever rank >= nc (and at the requested rank without collections), written back row for row; _svd_denoise cuts nothing off at full rank.",
    note="Cadzow rank reduction, the SVD identities themselves (A-LINALG: U diag(s) Vh == X), Savitzky-Golay and the spike-count conservation on real calls are numerics: bounded stand-in (exact frequency-domain plane waves, boundary spikes).",
    tech="AST->z3 VC generation with integer rounding lemmas (deductive) + bounded native stand-in"),
  "C15": dict(cat="other", ref="DESIGN.md 4/C15",
    text="One symbolic iteration of interpolate_bad_channels' loop for an arbitrary dead/noisy channel on any geometry: only that row is written; weights are zeroed exactly on dead/noisy channels and below 0.005; sources are good or outside-brain channels with positive weight; "
-        "coefficients == weight / sum over the sources (convex); zeros when there is no source. detect_bad_channels recommendation tail: noisy iff, dead iff (unless noisy), outside-brain only within the low-coherence set reaching the last channel (induction lemma on the gap counter).",
+        "coefficients == weight / sum over the sources (convex); zeros when there is no source (a channel the loop skips was zeroed first). detect_bad_channels_cbin: one detection per requested batch and their per-channel mode, also on a 1.2 s snippet shorter than the batches side by side. detect_bad_channels recommendation tail: noisy iff, dead iff (unless noisy), outside-brain only within the low-coherence set reaching the last channel (induction lemma on the gap counter).",
    note="Distance-decay values are opaque positive numbers (A-MATH); matmul opaque with exact operands. Detection of injected faults over the whole probe (both ends, gaps), the per-file mode, numeric range of the replacement: bounded stand-in. Known finding F-C15-2 (silent channel 0 never labelled).",
    tech="AST->z3 VC generation, piecewise loop-body execution, hand-stated induction lemma (deductive) + bounded detection stand-in"),
 }
